@@ -114,13 +114,14 @@ def search(seed, tier):
     cases = all_cases()
     rng.shuffle(cases)
     n = 5
-    for kind, lk in cases[: (60 if tier == 'quick' else len(cases))]:
+    for kind, lk in (cases * 3)[: (240 if tier == 'quick' else 3 * len(cases))]:
         torch.manual_seed(rng.randrange(1 << 30))
         net = FCNN(1 + NTH, 1, hidden_units=(8,))
         th = [torch.tensor([[rng.uniform(-3, 3)] for _ in range(n)], requires_grad=True) for _ in range(NTH)]
-        c = dict(t_0=rng.uniform(-3, 3), u_0=rng.uniform(-3, 3))
+        edge = lambda: rng.choice([rng.uniform(-3, 3), rng.uniform(-3, 3), 0.0, -0.0, 1.0, 0])
+        c = dict(t_0=edge(), u_0=edge())
         if kind == 'ivp_n':
-            c['u_0_prime'] = rng.uniform(-3, 3)
+            c['u_0_prime'] = edge()
         if kind == 'bvp':
             c.update(t_1=rng.uniform(4, 8), u_1=rng.uniform(-3, 3))
             cond = BundleDirichletBVP(bundle_param_lookup=dict(lk), **c)
@@ -128,7 +129,7 @@ def search(seed, tier):
             cond = BundleIVP(bundle_param_lookup=dict(lk), **c)
 
         def rowv(p):
-            return th[lk[p]].detach().clone() if p in lk else torch.full((n, 1), c[p])
+            return th[lk[p]].detach().clone() if p in lk else torch.full((n, 1), float(c[p]))
         reqs = [('t_0', 'u_0', 'v')]
         if kind == 'ivp_n':
             reqs.append(('t_0', 'u_0_prime', 'd'))
